@@ -78,6 +78,25 @@ def r02b(ctx, rep, which):
                         fed = True
                     reposition.append((n, c.line, fed))
         good = [r for r in reposition if r[2]]
+        # the scan must not count a record it has not seen in full: where the scan's position advances, a must-pass
+        # test compares the record end with the file length, or the payload was read with read_exact
+        for (n, line, fed) in good:
+            g = cg.fns[n]
+            defs = A.Defs(g)
+            sc = [c for c in A.calls(g) if re.search(r'fs::File::set_len$', c.resolved)][0]
+            sl = A.backward_slice(g, [sc.args[1]], defs)
+            scanners = [cg.fns[x] for x in sl.calls if x in cg.fns and cg.path(x, lambda y: A.name_matches(y, READ_EXACT))]
+            if A.calls_to(g, READ_EXACT):
+                scanners.append(g)
+            for sf in scanners:
+                ok_scan = _scan_sound(sf)
+                if ok_scan:
+                    rep.holds('R02b', sf, w + ' scan', ok_scan)
+                else:
+                    rep.violation('R02b', sf, w + '-scan-counts-partial-record', sf.loc(),
+                                  'the record scan that decides where the log ends advances over a record without a must-pass test that the whole '
+                                  'record is present (no comparison with the file length, payload not read with read_exact): a tail torn after the '
+                                  'length prefix is counted as complete and never repaired')
         if good:
             rep.holds('R02b', f, w, 'set_len at %s:%d fed by a record scan' % (good[0][0], good[0][1]))
         else:
@@ -87,6 +106,55 @@ def r02b(ctx, rep, which):
                           'partial record and replay never reaches them' % (
                               w, 'append' if append_mode else 'write', len(reach),
                               '; set_len present but not fed by a scan' if reposition else ''))
+
+
+def _scan_sound(f):
+    """In a record-scanning loop, the loop's back edge (next record) must only be reachable through a test involving
+    the file length (Metadata::len) or through the Ok edge of a read_exact that covers the payload."""
+    defs = A.Defs(f)
+    uses = A.Uses(f)
+    reads = A.calls_to(f, READ_EXACT)
+    if not reads:
+        return None
+    first = min(reads, key=lambda c: (c.line, c.bb))
+    # loop = blocks from which the first read is reachable again
+    loop_back_preds = [b for b in range(len(f.bbs)) if first.bb in A.succs(f, b) or first.bb in A.reachable(f, A.succs(f, b))]
+    # edges that must be passed to come back to the header read after having passed it once
+    after = A.reachable(f, [first.target]) if first.target is not None else set()
+    if first.bb not in after:
+        return None  # no loop
+    # candidate guards: comparisons whose slice includes Metadata::len, and Ok-edges of later read_exact calls
+    guards_len = set()
+    for i, b in enumerate(f.bbs):
+        if b['cleanup'] or b['t'][0] != 'sw' or i not in after:
+            continue
+        l = lib.switch_local(f, i)
+        d = A.single_def(defs, l) if l is not None else None
+        if d and d[2] == 'st' and d[3][1][0] == 'bin' and d[3][1][1] in ('Gt', 'Lt', 'Ge', 'Le'):
+            sl = A.backward_slice(f, [d[3][1][2], d[3][1][3]], defs)
+            if any(re.search(r'Metadata::len$', c) for c in sl.calls):
+                for s2 in set(A.succs(f, i)):
+                    guards_len.add((i, s2))
+    payload_ok = set()
+    for c in reads:
+        if c is first:
+            continue
+        o = A.call_outcome(f, c, uses)
+        payload_ok |= o.ok
+    # can the header read be reached again from its own Ok continuation with all those guard edges cut?
+    o1 = A.call_outcome(f, first, uses)
+    starts = [t for (_, t) in o1.ok] or [first.target]
+    if guards_len:
+        # at least one length comparison must be must-pass on the way back to the header
+        for (a, s2) in sorted(guards_len):
+            R = A.reachable(f, starts, cut_edges={(a, s2)})
+            if first.bb not in R:
+                return 'loop continues only through a comparison with the file length'
+    if payload_ok:
+        R = A.reachable(f, starts, cut_edges=payload_ok)
+        if first.bb not in R:
+            return 'loop continues only after the payload was read with read_exact'
+    return None
 
 
 def r02e(ctx, rep, which):
@@ -103,7 +171,7 @@ def r02e(ctx, rep, which):
         uses = A.Uses(f)
         reads = A.calls_to(f, READ_EXACT)
         decs = A.calls_to(f, ('re', r'bitcode::deserialize|bincode::deserialize|::from_bytes$|deserialize_entry|::decode'))
-        if not rep.floor('R02e', '%s replay read_exact calls' % w, len(reads), 3):
+        if not rep.floor('R02e', '%s replay read_exact calls' % w, len(reads), 2):
             continue
         rep.floor('R02e', '%s replay decode calls' % w, len(decs), 1)
         read_blocks = {c.bb for c in reads}
@@ -123,3 +191,71 @@ def r02e(ctx, rep, which):
                                   'after a failed %s the replay loop can reach another read_exact (bb%s): a bad record is skipped, not a stop' % (kind, again))
                 else:
                     rep.holds('R02e', f, '%s %s#%d' % (w, kind, k), 'error edge leaves the loop')
+
+
+def r02f(ctx, rep, which):
+    """shrinking the log moves the write position with it"""
+    rep.rule('R02f', 'a WAL method that shortens the live log file in place (File::set_len on the handle it keeps) must leave the write '
+                     'position at the new end: the handle was opened in append mode in that same function, or a Seek follows the '
+                     'set_len on every path, or every handle ever stored in the WAL is an append-mode handle; otherwise records '
+                     'written next land behind a hole that replay cannot cross')
+    for w in which:
+        spec = WALS[w]
+        cr = ctx.crate(spec['crate'])
+        struct = spec['struct']
+        fns = [f for n, f in cr.fns.items() if n.startswith(struct + '::') or n.startswith(struct.replace('::', '::', 1) + '::<')]
+        if not fns:
+            rep.violation('R02f', 'anchor-missing', struct, '-', 'anchor-missing: no methods of %s found' % w)
+            continue
+        # kinds of handles stored into the WAL's writer field
+        kinds = {}
+        for f in fns:
+            defs = None
+            sites = []
+            for b in f.bbs:
+                if b['cleanup']:
+                    continue
+                for st in b['s']:
+                    rv = st[1]
+                    if rv[0] == 'agg' and rv[1] == struct and rv[3]:
+                        for nm, op in zip(rv[3], rv[2]):
+                            if nm in ('file', 'writer') and op[0] != 'k':
+                                sites.append(op)
+                    fs = A.place_fields(st[0])
+                    if fs and fs[-1] in (struct + '.file', struct + '.writer') and rv[0] == 'use' and rv[1][0] != 'k':
+                        sites.append(rv[1])
+            for op in sites:
+                defs = defs or A.Defs(f)
+                sl = A.backward_slice(f, [op], defs)
+                k = 'other'
+                if any(c.endswith('OpenOptions::append') for c in sl.calls):
+                    k = 'append'
+                elif any(c.endswith('File::create') for c in sl.calls):
+                    k = 'create'
+                elif any(c.endswith('OpenOptions::open') for c in sl.calls):
+                    k = 'open'
+                kinds.setdefault(k, []).append(f.name)
+        all_append = bool(kinds) and set(kinds) <= {'append'}
+        n = 0
+        for f in fns:
+            sl_calls = [c for c in A.calls(f) if re.search(r'fs::File::set_len$', c.resolved)]
+            if not sl_calls:
+                continue
+            defs = A.Defs(f)
+            for c in sl_calls:
+                n += 1
+                rs = A.backward_slice(f, [c.args[0]], defs)
+                local_append = any(x.endswith('OpenOptions::append') for x in rs.calls)
+                seeks = [x for x in A.calls(f) if re.search(r'Seek>::(seek|rewind)$|Seek::(seek|rewind)$', x.resolved + ' ' + x.generic)]
+                followed = False
+                if seeks and c.target is not None:
+                    R = A.reachable(f, [c.target], cut_blocks={x.bb for x in seeks})
+                    followed = not any(r in R for r in A.return_blocks(f))
+                if local_append or followed or all_append:
+                    rep.holds('R02f', f, w + ' set_len', 'append-mode handle' if (local_append or all_append) else 'seek follows')
+                else:
+                    rep.violation('R02f', f, w + '-cursor-after-set_len', f.loc(c.line),
+                                  '%s shortens the log with set_len on a handle that is not append-mode in every case (handles stored: %s) and '
+                                  'does not seek: after a rotation the cursor stays at the old offset and later records are written behind a '
+                                  'hole of zero bytes that replay stops at' % (lib.short(f.name), {k: sorted(set(lib.short(x) for x in v)) for k, v in kinds.items()}))
+        rep.notes.append('R02f: %s handle kinds %s, %d set_len site(s)' % (w, {k: len(v) for k, v in kinds.items()}, n))
